@@ -1671,6 +1671,8 @@ class Workflow(Trellis):
             file = self.create(File, None, path, state=state)
             detached = True
             self.watch_dir(Path(path).parent)
+            # A detached static tree over this path would come back without adopting the file.
+            self._invalidate_detached_tree_creators(step, path)
         else:
             # Either the file is attached, or it is detached but still has a creator,
             # which means it belongs to a subtree that may yet be recycled,
